@@ -122,6 +122,10 @@ def run(tier):
                                                                               're-run, pre-populated directory) and the package imported; Model/GenPkg.v predicts the file set and every __init__')
     quick = tier == 'quick'
     trees, rng = build_trees(C, 8 if quick else 100)
+    # a type whose module name equals a sibling directory of the generated package (known finding)
+    coll = empty_tree()
+    coll['']['structs'] += [{'name': 'Net', 'body': [F('a', 'char')]}, {'name': 'Holder', 'body': [F('n', 'Net')]}]
+    trees.append(dict(name='dir-name-collision', tree=coll))
     root = C.scratch.dir
     work = os.path.join(root, 'c18')
     os.makedirs(work)
@@ -133,7 +137,8 @@ def run(tier):
     for t, r in zip(trees, results):
         runs += r['runs']
         for p in r['problems'][:1]:
-            C.violation(f"tree '{r['name']}': {p}", dict(unit='protocol_code_generator', input=dict(tree=r['name'], xml=tree_xml(t['tree']))))
+            key = 'type-module-shadowed-by-sibling-directory' if r['name'] == 'dir-name-collision' and ('not importable' in p or 'not exported' in p) else None
+            C.violation(f"tree '{r['name']}': {p}", dict(unit='protocol_code_generator', input=dict(tree=r['name'], xml=tree_xml(t['tree']))), key=key)
         if 'files' in r:
             cases.append((t['tree'], r['files'], r['init_lines']))
     C.stream('oracle.determinism', runs, runs, sample=dict(tree=trees[0]['name'], variants=[v[0] for v in VARIANTS] + ['same-object-twice', 'same-object-after-failed-run', 'created-reversed', 'second-run-same-dir', 'pre-populated']))
